@@ -120,7 +120,7 @@ def segs : Str → Bool → Bool → List Str
     if c = 59 && !odd then [] :: segs cs false false
     else
       let odd' := if c = 34 && !bs then !odd else odd
-      match segs cs odd' (c = 92) with
+      match segs cs odd' (c = 92 && !bs) with
       | w :: ws => (c :: w) :: ws
       | [] => [[c]]
 
